@@ -20,6 +20,8 @@ def build(tier, seed):
             qs.append(wc.wq("st_refuse%d_bs%d" % (i, bs), ri=2, bs=bs, perm=perm, witness=(i == 0), **T))
     qs.append(Query("metadata_roundtrip", harness="c10_metadata.c", entry="h_metadata", units=["mtbl/metadata.c", "mtbl/fixed.c"],
                     unwind=520, timeout=600, sample={"fields": "nine symbolic 64-bit values, symbolic magic"}))
+    qs.append(Query("mtbl_info_lines", harness="c10_info.c", entry="h_info", units=["mtbl/metadata.c", "mtbl/fixed.c"], unwind=30,
+                    timeout=600, object_bits=12, sample={"fields": "nine symbolic statistics; every integer line of mtbl_info's output compared with its accessor"}))
     qs.append(wc.wq("init_opts", [1], [0], [1], entry="h_init_opts", witness=True,
                     sample={"options": "symbolic block size / restart interval / level / algorithm, given or NULL"}))
     # reader side: accessors on a reference-encoded file (trailer written by the independent encoder)
@@ -29,7 +31,7 @@ def build(tier, seed):
         "functions": wc.FUNCS + ["metadata_read", "mtbl_metadata_* accessors", "mtbl_reader_metadata"],
         "units": ["mtbl/writer.c", "mtbl/block_builder.c", "mtbl/reader.c"] + wc.UNITS,
         "bounds": "as C09 (tables <= 6 entries, 0..3 block cuts, prefix 0..17, compression ids 0..5) plus add histories with refused adds (equal keys, out-of-order keys before and after a cut); trailer serialisation with nine fully symbolic 64-bit fields and a symbolic magic",
-        "outside": "pooled writers (counters updated from the result-handler thread): C13; mtbl_info's printf formatting (floating-point percentages are not part of the property; the integer lines print the accessor values directly)",
+        "outside": "pooled writers (counters updated from the result-handler thread): C13; mtbl_info's floating-point percentage columns and thousands-separator rendering (the integer argument of every statistics line is checked)",
         "stubs": wc.STUBS,
         "assumptions": ["the harness's own counters (accepted entries, decoded blocks and byte ranges) are the truth about the file"],
         "exhaustive": False,
